@@ -1030,9 +1030,21 @@ Proof.
   - now apply sra_signed_correct.
   - now apply repaired_sra_unsigned_correct.
 Qed.
-Definition lowered_integer_pow (sb : ity) (x : Z) (n : nat) := repaired_integer_pow sb x n.
+(* ---------------------------------------------------------------- repair committed as 22a5583 (.scratch/c01k/fix_integer_pow0.diff) *)
+(* lax.integer_pow(x, 0) on integers: Add(Mul(x, 0), 1) instead of Pow (which has no int8 / int16 / unsigned base) *)
+Definition repaired_integer_pow0 (sb : ity) (x : Z) : Z := o_add sb (o_mul sb x 0) 1.
+Theorem repaired_integer_pow0_correct sb x : 0 < snd sb -> repaired_integer_pow0 sb x = jax_integer_pow sb x 0.
+Proof.
+  intro Hb. unfold repaired_integer_pow0, o_add, o_mul. rewrite Z.mul_0_r, wrap_add_l by exact Hb. reflexivity.
+Qed.
+
+(* the lowering of /repo since 22a5583: exponent 0 is Add(Mul(x, 0), 1), exponents >= 1 the repeated Mul of 48bcbc4 *)
+Definition lowered_integer_pow (sb : ity) (x : Z) (n : nat) :=
+  match n with O => repaired_integer_pow0 sb x | _ => repaired_integer_pow sb x n end.
 Theorem integer_pow_correct sb x n : 0 < snd sb -> in_int sb x -> lowered_integer_pow sb x n = jax_integer_pow sb x n.
-Proof. exact (repaired_integer_pow_correct sb x n). Qed.
+Proof.
+  intros Hb Hx. destruct n as [|k]; [exact (repaired_integer_pow0_correct sb x Hb) | exact (repaired_integer_pow_correct sb x (S k) Hb Hx)].
+Qed.
 
 (* ---------------------------------------------------------------- repairs committed as cc0a643 (relu) and ccb100d (jnp.power) *)
 (* jax.nn.relu on unsigned types: Identity instead of Relu (which has no unsigned variant) *)
@@ -1053,14 +1065,6 @@ Proof. exact (repaired_relu_correct sb x). Qed.
 Definition relu_dom (sb : ity) : Prop := is_signed sb = true.
 Theorem relu_unsigned_outside_onnx_domain sb : is_signed sb = false -> ~ relu_dom sb.
 Proof. unfold relu_dom; intros H1 H2; congruence. Qed.
-
-(* ---------------------------------------------------------------- pending repair (.scratch/c01k/fix_integer_pow0.diff) *)
-(* lax.integer_pow(x, 0) on integers: Add(Mul(x, 0), 1) instead of Pow (which has no int8 / int16 / unsigned base) *)
-Definition repaired_integer_pow0 (sb : ity) (x : Z) : Z := o_add sb (o_mul sb x 0) 1.
-Theorem repaired_integer_pow0_correct sb x : 0 < snd sb -> repaired_integer_pow0 sb x = jax_integer_pow sb x 0.
-Proof.
-  intro Hb. unfold repaired_integer_pow0, o_add, o_mul. rewrite Z.mul_0_r, wrap_add_l by exact Hb. reflexivity.
-Qed.
 
 (* ================================================================ non-vacuity *)
 Example nonvacuous_div : in_int I32 (-7) /\ in_int I32 2 /\ div_dom I32 (-7) 2 /\ lowered_div I32 (-7) 2 = -3.
